@@ -66,6 +66,12 @@ def changes():
         name = "tmpbenign/" + d.split("/")[-2] + "-" + d.split("/")[-1]
         if os.path.exists(p) and not os.path.exists(os.path.join(VERIF, "selftest", "benign", d.split("/")[-2] + "-" + d.split("/")[-1] + ".patch")):
             out.append((name, p, "benign"))
+    for d in sorted(glob.glob("/tmp/mut8/S*/N*")):
+        p = os.path.join(d, "patch.diff")
+        nm = "B7-W" + d.split("/")[-2][1:] + "-" + d.split("/")[-1]
+        if os.path.exists(p) and os.path.exists(os.path.join(d, "confirmed")) and \
+                not os.path.exists(os.path.join(VERIF, "selftest", "benign", nm + ".patch")):
+            out.append(("tmpbenign8/" + nm, p, "benign"))
     return out
 
 
